@@ -1563,6 +1563,47 @@ def sweep_programs(mine=None) -> list:
     for i in range(0, len(sigs), 7):
         emit("odd-signatures", True, lambda chunk=sigs[i: i + 7]: sig_defs(chunk))
 
+    # (8) parameters declared as unions of >= 10 literals (MultiValuedValue answers those from an index of its literal
+    # members) receiving every odd literal, incl. literals of a hashable type with unhashable content
+    odd = list(dict.fromkeys(["([], 1)", "(1, [2])", "(1, {})", "[1]", "{1}", "{'a': 1}", "1.0", "True", "(1,)", "frozenset({1})", "bytearray(b'x')",
+                              "('a', 'b')", "(1.0, 2)", "[[1], [1.0]]", "Color.RED", "len", "lambda: 0", "None", "...", "g2", "undef1"] + INT_LITS + STR_LITS))
+    big_head = ("Digit = Literal[0, 1, 2, 3, 4, 5, 6, 7, 8, 9]\nMixed = Literal[1, True, 2, 3, 4, 5, 6, 7, 8, 9]\n"
+                "Word = Literal['a', 'b', 'c', 'd', 'e', 'f', 'g', 'h', 'i', 'j', 'k']\nDigitOrList = Union[Digit, list[int]]\n"
+                "DigitOrTuple = Union[Digit, tuple[int, ...]]\nDigitOrTD = Union[Digit, 'LaterTD']\n"
+                "def td(x: Digit): pass\ndef tm(x: Mixed): pass\ndef tw(x: Word): pass\ndef tdl(x: DigitOrList): pass\n"
+                "def tdt(x: DigitOrTuple): pass\ndef tdd(x: DigitOrTD): pass")
+
+    def big_union_defs(chunk):
+        defs = [big_head]
+        for j, e in enumerate(chunk):
+            defs.append(f"def bu{j}(p: Digit, q: DigitOrList):\n    td({e}); tm({e}); tw({e}); tdl({e}); tdt({e}); tdd({e})\n    v: Digit = {e}\n"
+                        f"    w: DigitOrTuple = {e}\n    if p == {e} or q == {e}: pass\n    if {e} in (0, 1, 2, 3, 4, 5, 6, 7, 8, 9, 'a'): pass\n    return [v, w, p, {e}]")
+        return defs
+
+    for i in range(0, len(odd), 8):
+        emit("big-literal-unions", False, lambda chunk=odd[i: i + 8]: big_union_defs(chunk))
+
+    # (9) every single-specifier % template (str and bytes; the template space of the format-string property) applied to
+    # a good and a bad operand, and a sample of str.format templates
+    convs, flags = list("diouxXeEfFgGcrsab%") + ["y"], ["", "#", "0", "-", " ", "+", "-0"]
+    widths, precs, lenmods = ["", "5", "*"], ["", ".2", ".*", "."], ["", "l"]
+    specs = [f"%{f}{w}{pr}{lm}{c}" for c in convs for f in flags for w in widths for pr in precs for lm in lenmods]
+    lines = []
+    for sp in specs:
+        nstar = sp.count("*")
+        good = "(" + "3, " * nstar + "1,)"
+        bad = "(" + "'3', " * nstar + "'x',)" if nstar else "'x'"
+        for lit in (repr("<" + sp + ">"), "b" + repr("<" + sp + ">")):
+            lines.append(f"({lit} % {good}, {lit} % {bad})")
+    for sp in ["%(a)s", "%(a)d %(b)s", "%(a)s %s", "%(a", "%(a)", "%()s", "%(a)5.2f", "%(a)*d"]:
+        for args in ["{'a': 1}", "{'b': 1}", "{}", "{b'a': 1}", "{'a': 1, 'b': 2}", "(1,)", "1", "g1"]:
+            lines.append(f"({sp!r} % {args}, b{sp!r} % {args})")
+    for t in ["{}", "{0}", "{0}{}", "{a}", "{a.real}", "{0[0]}", "{!r}", "{:>{}}", "{:{w}}", "{0!x}", "{", "}", "{0", "{0.}", "{[}", "{:{}", "{²}", "{0:zz}", "{a!r:>{w}}"]:
+        for args in ["", "1", "1, 2", "a=1", "1, a=2, w=3", "*g2", "**g1"]:
+            lines.append(f"{t!r}.format({args})")
+    for i in range(0, len(lines), 90):
+        emit("format-templates", False, src=HEADER + "def fmt_holder():\n" + _indent("\n".join(lines[i: i + 90]), "    ") + "\n" + TAIL)
+
     for tp in TYPE_PARAMS + ["T = int", "T: int = bool", "*Ts = *tuple[int, str]", "**P = [int, str]", "T: (int, undef1)", "T: 'undef1'", "T: 1", "T: (int,)", "T: ()",
                              "T: Later", "T: list[Later]", "T: T", "T: U, U: T", "T, T2: T", "T: Callable[[T], T]", "T: int | None", "T: Literal[1]"]:
         emit("type-parameters", False, lambda tp=tp: tparam_defs(tp))
